@@ -61,10 +61,31 @@ def run(ctx):
     core.lean_phase(ctx)
     rng = ctx.rng
     reqs, metas = [], []
+
+    def flush():
+        outs = ctx.driver.run(reqs) if reqs else []
+        for req, meta, out in zip(reqs, metas, outs):
+            op, info, d, args, (st, val) = meta
+            ctx.count("model_requests")
+            if "bad" in out:
+                ctx.mismatch(op, {"args": str(args)[:300], "doc": str(d)}, st, out)
+                continue
+            if st == "ok":
+                if out.get("ok") != val:
+                    ctx.mismatch(op, {"schema": info.name, "doc": d.to_json(), "args": [str(a) for a in args]},
+                                 "ok", out if "err" in out else "different value")
+            else:
+                want = {"failed": "failed", "valueError": "valueError"}.get(st, "internal")
+                if out.get("err") != want:
+                    ctx.mismatch(op, {"schema": info.name, "doc": d.to_json(), "args": [str(a) for a in args]}, st, out)
+        del reqs[:], metas[:]
+
     fam = schemas.family()
     n_schemas = ctx.budget(12, 60)
     pools = []
     for i in range(n_schemas):
+        if len(reqs) >= 15000:
+            flush()     # keep memory bounded in long runs
         info = fam[i % len(fam)] if i < len(fam) or rng.random() < 0.5 else schemas.random_schema(rng)
         ctx.driver.add_schema(info)
         docs = [gen.gen_doc(rng, info.schema, budget=rng.choice([8, 15, 30])) for _ in range(ctx.budget(6, 12))]
@@ -152,21 +173,7 @@ def run(ctx):
                 reqs.append({"op": "replace", "s": info.lean_id, "doc": info.node(d), "from": f2, "to": t2,
                              "slice": info.slice(other)})
                 metas.append(("replace", info, d, (f2, t2, other), (st4, info.node(res) if st4 == "ok" else None)))
-    outs = ctx.driver.run(reqs) if reqs else []
-    for req, meta, out in zip(reqs, metas, outs):
-        op, info, d, args, (st, val) = meta
-        ctx.count("model_requests")
-        if "bad" in out:
-            ctx.mismatch(op, {"args": str(args)[:300], "doc": str(d)}, st, out)
-            continue
-        if st == "ok":
-            if out.get("ok") != val:
-                ctx.mismatch(op, {"schema": info.name, "doc": d.to_json(), "args": [str(a) for a in args]},
-                             "ok", out if "err" in out else "different value")
-        else:
-            want = {"failed": "failed", "valueError": "valueError"}.get(st, "internal")
-            if out.get("err") != want:
-                ctx.mismatch(op, {"schema": info.name, "doc": d.to_json(), "args": [str(a) for a in args]}, st, out)
+    flush()
     return ctx.finish(
         rule="a case is (schema, document, range[, slice]) for slice / cut / re-insertion / replace with a slice cut "
              "from another document of the same schema; schemas: the bundled family and random well-founded schemas; "
